@@ -1,7 +1,147 @@
-(* C15 property theorems only. *)
-From Coq Require Import ZArith List Bool.
-Require Import MV.Lib.Base MV.C15.Model MV.C15.Proofs.
+(* C15 property theorems only: each closed by `exact <lemma>` with Print Assumptions beneath.
+   Models: Border.v / Feat.v over the generated Gen.v.  wf_b / wf_f are the boolean well-formedness predicates of the
+   input connectivity tables (sorted neighbourhoods), evaluated by Coq on the tables of every generated mesh. *)
+From Coq Require Import ZArith List Bool Relations Permutation QArith Qabs Reals Qreals.
+Import ListNotations.
+Require Import MV.Lib.Base MV.C15.Model MV.C15.Proofs MV.C15.ProofsAngle.
 
-Theorem C15_key_add_partial : forall k l x, In x (key_add k l) <-> x = k \/ In x l.
-Proof. exact key_add_In. Qed.
-Print Assumptions C15_key_add_partial.
+(* from any border start the walk is a closed walk along border edges visiting each border vertex of the loop of
+   the start exactly once, every border edge of that loop exactly once, with the edge ids reported *)
+Theorem C15_cycle : forall s start, wf_b s = true -> In start (s_bverts s) ->
+  exists vb eb, extract_border_cycle s (Some start) = Outcome (CycOk vb eb) /\ border_cycle_of s start vb eb.
+Proof. exact cycle_thm. Qed.
+Print Assumptions C15_cycle.
+
+(* no border -> []; a start that is not a border vertex -> the documented exception; default start = first border vertex *)
+Theorem C15_cycle_other_outcomes : forall s, wf_b s = true ->
+  (s_bverts s = [] -> forall o, extract_border_cycle s o = Outcome CycEmpty)
+  /\ (s_bverts s <> [] -> forall start, ~ In start (s_bverts s) ->
+        extract_border_cycle s (Some start) = Outcome CycNotOnBorder)
+  /\ (s_bverts s <> [] -> extract_border_cycle s None = extract_border_cycle s (Some (hd 0%Z (s_bverts s)))).
+Proof. exact cycle_other_thm. Qed.
+Print Assumptions C15_cycle_other_outcomes.
+
+(* the cycles returned are a partition of the border vertices into the border loops, each exactly once, each a
+   closed border walk; their number is the number of loops of ANY decomposition into border-connected classes *)
+Theorem C15_all_cycles : forall s, wf_b s = true ->
+  exists cycles, extract_border_cycle_all s = Some cycles
+    /\ loop_partition s cycles
+    /\ Permutation (concat cycles) (s_bverts s)
+    /\ Forall (fun c => exists start eb, extract_border_cycle s (Some start) = Outcome (CycOk c eb)
+                                        /\ border_cycle_of s start c eb) cycles
+    /\ (forall L, loop_partition s L -> length L = length cycles).
+Proof. exact all_cycles_thm. Qed.
+Print Assumptions C15_all_cycles.
+
+(* the boundary polyline: vertices, the returned index map (direction as implemented: surface id -> polyline id;
+   a bijection consistent with coordinates), exactly the border edges renamed through it, component labels *)
+Theorem C15_boundary : forall s, wf_b s = true ->
+  exists cycles p,
+    extract_border_cycle_all s = Some cycles /\ extract_boundary_of_surface s = Some p
+    /\ pl_src p = concat cycles
+    /\ (forall v, In v (s_bverts s) <-> exists i, dict_get v (pl_map p) = Some i)
+    /\ (forall v i, dict_get v (pl_map p) = Some i ->
+          (0 <= i < Z.of_nat (length (s_bverts s)))%Z /\ nth (Z.to_nat i) (pl_src p) 0%Z = v)
+    /\ (forall u v i, dict_get u (pl_map p) = Some i -> dict_get v (pl_map p) = Some i -> u = v)
+    /\ (forall i, (0 <= i < Z.of_nat (length (s_bverts s)))%Z ->
+          exists v, In v (s_bverts s) /\ dict_get v (pl_map p) = Some i)
+    /\ Permutation (pl_edges p)
+         (map (fun e => keyify2 (pos (pl_map p) (fst (edge_pair s e))) (pos (pl_map p) (snd (edge_pair s e))))
+              (s_bedges s))
+    /\ (forall k c v, nth_error cycles k = Some c -> In v c ->
+          dict_get (pos (pl_map p) v) (pl_comp p) = Some (Z.of_nat k)).
+Proof. exact boundary_thm. Qed.
+Print Assumptions C15_boundary.
+
+(* for the record (config.sort_neighborhoods = False is outside the quantifier): on unsorted tables the walk
+   takes an interior chord and revisits vertices *)
+Theorem C15_cycle_unsorted_refuted :
+  exists s start vb eb,
+    In start (s_bverts s) /\ extract_border_cycle s (Some start) = Outcome (CycOk vb eb)
+    /\ ~ NoDup vb /\ In (Some 0%Z) eb /\ ~ In 0%Z (s_bedges s) /\ wf_b s = false.
+Proof. exact cycle_unsorted_refuted. Qed.
+Print Assumptions C15_cycle_unsorted_refuted.
+
+(* flagged set = border  U  {interior, n1.n2 < 1/2}  U  {declared hard, interior, n1.n2 < 4/5}  (border only when so
+   configured); no hypothesis on the tables *)
+Theorem C15_features : forall m o x,
+  In x (feature_edges m o) <->
+    In x (f_bedges m)
+    \/ (o_only_border o = false
+        /\ (((0 <= x < Z.of_nat (length (f_edges m)))%Z /\ sharp_edge m x) \/ hard_edge m x)).
+Proof. exact feature_edges_spec. Qed.
+Print Assumptions C15_features.
+
+Theorem C15_features_only_border : forall m o x, o_only_border o = true ->
+  (In x (feature_edges m o) <-> In x (f_bedges m)).
+Proof. exact feature_edges_only_border. Qed.
+Print Assumptions C15_features_only_border.
+
+(* on well-formed tables: flagged edges are edges of the mesh, each once; border edges are exactly the edges with a
+   missing face, so the two dot-product sources only ever add interior edges *)
+Theorem C15_features_wf : forall m o, wf_f m = true ->
+  NoDup (feature_edges m o)
+  /\ (forall e, In e (feature_edges m o) -> (0 <= e < Z.of_nat (length (f_edges m)))%Z)
+  /\ (forall e, (0 <= e < Z.of_nat (length (f_edges m)))%Z -> (In e (f_bedges m) <-> dot_of m e = None)).
+Proof. exact features_wf_thm. Qed.
+Print Assumptions C15_features_wf.
+
+(* derived containers are functions of that edge set *)
+Theorem C15_feature_vertices : forall m o v,
+  (In v (feature_vertices m o) <->
+     exists e, In e (feature_edges m o) /\ (v = fst (fedge_at m e) \/ v = snd (fedge_at m e)))
+  /\ NoDup (feature_vertices m o).
+Proof. exact feature_vertices_thm. Qed.
+Print Assumptions C15_feature_vertices.
+
+Theorem C15_feature_degrees : forall m o v,
+  getd v (feature_degrees m o) = total m v (feature_edges m o)
+  /\ (dict_get v (feature_degrees m o) <> None <-> In v (feature_vertices m o)).
+Proof. exact feature_degrees_thm. Qed.
+Print Assumptions C15_feature_degrees.
+
+Theorem C15_local_feat_edges : forall m o,
+  map fst (local_feat_edges m o) = feature_vertices m o
+  /\ (forall v j, In j (local_feat_edges_of m (feature_edges m o) v)
+        <-> exists k e, j = Z.of_nat k /\ nth_error (znth (f_v2e m) v []) k = Some (Some e)
+                        /\ In e (feature_edges m o)).
+Proof. exact local_feat_edges_thm. Qed.
+Print Assumptions C15_local_feat_edges.
+
+(* the two per-vertex containers agree: feature degree = number of local feature-edge indices *)
+Theorem C15_degree_is_local_count : forall m o v, wf_f m = true -> (0 <= v < f_nV m)%Z ->
+  getd v (feature_degrees m o) = Z.of_nat (length (local_feat_edges_of m (feature_edges m o) v)).
+Proof. exact degree_is_local_count_thm. Qed.
+Print Assumptions C15_degree_is_local_count.
+
+(* corners: defined exactly on the feature vertices when flag_corners is on, None otherwise; the value is the sign
+   for a small angle sum and otherwise the integer nearest to angle * corner_order / (2 pi)  (h = angle / pi) *)
+Theorem C15_corners : forall m o,
+  (o_flag_corners o = false -> corners m o = None)
+  /\ (o_flag_corners o = true ->
+      exists l, corners m o = Some l /\ map fst l = feature_vertices m o
+                /\ forall v c, In (v, c) l -> c = corner_of (half_at m v) (o_corner_order o)).
+Proof. exact corners_spec. Qed.
+Print Assumptions C15_corners.
+
+Theorem C15_corner_value : forall h k,
+  ((Qabs h < 2 / inject_Z k)%Q -> corner_of h k = if Qle_bool 0 h then 1%Z else (-1)%Z)
+  /\ (~ (Qabs h < 2 / inject_Z k)%Q -> (Qabs (inject_Z (corner_of h k) - h * inject_Z k / 2) <= 1 # 2)%Q).
+Proof. exact corner_of_spec. Qed.
+Print Assumptions C15_corner_value.
+
+(* the generated threshold tests are  n1.n2 < 1/2  and  n1.n2 < 4/5  over the reals; for unit normals
+   (n1.n2 in [-1,1], angle = acos(n1.n2)) they say: more than 60 degrees, resp. more than acos(4/5) = atan(3/4) apart *)
+Theorem C15_thresholds_as_angles :
+  (forall d, sharp_test d = true <-> (Q2R d < 1 / 2)%R)
+  /\ (forall d, hard_test d false = true <-> (Q2R d < 4 / 5)%R)
+  /\ (forall x, (-1 <= x <= 1)%R -> ((x < 1 / 2)%R <-> (PI / 3 < acos x)%R))
+  /\ (forall x, (-1 <= x <= 1)%R -> ((x < 4 / 5)%R <-> (acos (4 / 5) < acos x)%R))
+  /\ acos (4 / 5) = atan (3 / 4).
+Proof. exact thresholds_thm. Qed.
+Print Assumptions C15_thresholds_as_angles.
+
+(* "about 37 degrees" *)
+Theorem C15_threshold_degrees : (36.86 < acos (4 / 5) * 180 / PI < 36.88)%R.
+Proof. exact acos45_degrees. Qed.
+Print Assumptions C15_threshold_degrees.
